@@ -2,38 +2,37 @@ package main
 
 import (
 	"fmt"
-	"strings"
 
 	"verifharness/chain"
 	"verifharness/run"
-	_ "verifharness/scen"
+	"verifharness/scen"
 )
 
 type probe struct{}
 
 func (probe) AfterCommit(w *chain.World, blk *chain.BlockRecord) {
-	if blk.Height != 122 {
-		return
-	}
 	for _, t := range blk.Txs {
-		fmt.Printf("TX %s ok=%v %.300s\n", t.MsgType(), t.OK(), fmt.Sprint(t.Msgs))
+		if t.MsgType() == "/cosmos.gov.v1.MsgSubmitProposal" && !t.OK() {
+			fmt.Printf("h=%d submit failed: %.300s\n", blk.Height, t.Result.Log)
+		}
 	}
-	if blk.Res != nil {
-		for _, e := range blk.Res.Events {
-			if strings.Contains(e.Type, "swap") || strings.Contains(e.Type, "transfer") {
-				s := e.Type + ": "
-				for _, a := range e.Attributes {
-					s += a.Key + "=" + a.Value + " "
-				}
-				fmt.Printf("EV %.400s\n", s)
+	for _, e := range blk.Res.Events {
+		if e.Type == "active_proposal" || e.Type == "proposal_failed" {
+			s := ""
+			for _, a := range e.Attributes {
+				s += a.Key + "=" + a.Value + " "
+			}
+			if len(s) > 0 {
+				fmt.Printf("h=%d %s %.400s\n", blk.Height, e.Type, s)
 			}
 		}
 	}
 }
 
 func main() {
-	j := run.Job{Prop: "C03", Scenario: "swap-batch", Index: 1, Seed: 1, Tier: "quick"}
+	_ = scen.MixAll
+	j := run.Job{Prop: "C18", Scenario: "faults", Index: 9, Seed: 1, Tier: "quick"}
 	run.AttachHook = func(w *chain.World) { w.AddProbe(probe{}) }
 	r := run.RunJob(j)
-	fmt.Println(r.Extra, r.NViolations)
+	fmt.Println(r.NViolations)
 }
